@@ -261,3 +261,48 @@ def mask_sensitive_container(kind: int, sens: bool, nested: bool, mi: int) -> bo
         hold("container", mm["box"] == mask or (len(mask) == 1 and isinstance(mm["box"], str) and set(mm["box"]) <= {mask}),
              lambda: "sensitive container rendered as %r" % (mm["box"],))
     return True
+
+
+@obligation(prop="C10", sites=("mask", "nomask"), encodes=ENC, stubs=("FakeFS",), regions=("nested_container",),
+            budget={"quick": 200, "thorough": 400},
+            what="configurations held in a list that is itself an item of another typed container (list of lists of "
+                 "configurations, dict of lists of configurations): sensitive leaves are masked like anywhere else")
+def mask_nested_container(in_dict: bool, ss: bool, si: bool, vi: int, mi: int) -> bool:
+    """
+    pre: 0 <= vi <= 2 and 0 <= mi <= 3
+    post: _
+    """
+    from cincoconfig import DictField
+    mask = None
+    for n, cand in enumerate((None, "", "*", "XX")):
+        if mi == n:
+            mask = cand
+    s, n_ = "", 0
+    for i, (cs, cn) in enumerate((("", 0), ("a", 7), ("secret", 12345))):
+        if vi == i:
+            s, n_ = cs, cn
+    known("nested_container", mask is not None and ((ss and s != "") or (si and n_ != 0)))
+    item = Schema()
+    item.name = StringField(sensitive=ss, default="")
+    item.num = IntField(sensitive=si, default=0)
+    item.plain = StringField(default="visible")
+    schema = Schema()
+    if in_dict:
+        schema.box = DictField(StringField(), ListField(item), default=lambda: {})
+    else:
+        schema.box = ListField(ListField(item), default=lambda: [])
+    cfg = schema()
+    cfg.box = {"k": [{"name": s, "num": n_}]} if in_dict else [[{"name": s, "num": n_}]]
+    unmasked = cfg.to_tree()
+    hold("nomask", cfg.to_tree(sensitive_mask=None) == unmasked, "mask=None altered the tree")
+    masked = cfg.to_tree(sensitive_mask=mask)
+    leaf_u = unmasked["box"]["k"][0] if in_dict else unmasked["box"][0][0]
+    leaf_m = masked["box"]["k"][0] if in_dict else masked["box"][0][0]
+    hold("mask", leaf_m["plain"] == "visible", "non-sensitive leaf altered")
+    for key, sens, live in (("name", ss, s), ("num", si, n_)):
+        if sens and mask is not None and live not in ("", 0):
+            hold("mask", leaf_m[key] == _mask_value(live, mask),
+                 lambda: "sensitive %s inside a nested container rendered as %r" % (key, leaf_m[key]))
+        elif not sens or mask is None:
+            hold("mask", leaf_m[key] == leaf_u[key], "leaf altered")
+    return True
